@@ -21,6 +21,14 @@ CODES = {"PERMISSION_DENIED": 403, "INVALID_ARGUMENT": 400, "NOT_FOUND": 404, "C
 
 
 def value_of(cls, rng):
+    """a parameter of class cls; every third one is declared `any` and merely HOLDS such a value (same expectation)"""
+    v, text, kind = value_of_plain(cls, rng)
+    if rng.chance(1, 3):
+        v = {"k": "via_any", "item": v}
+    return v, text, kind
+
+
+def value_of_plain(cls, rng):
     """-> (DynVal json, expected string or None (omitted), kind of comparison)"""
     if cls == "string":
         s = rng.choice(["hello", "", "NaN", "héllo ☃", "a b", "1"])
